@@ -165,7 +165,7 @@ theorem good_sel (I : ArcInst) (hw : WF I) (hpos : PosTimes I.g) (x : Vec) (hl :
     obtain ⟨m', _, _, huniq⟩ := arc_pred_exists_unique I hw x hl u hu hi
     rw [huniq c hc hlc, huniq c' hc' hlc']
 
-/-! ## statements to prove (replace every `sorry`) -/
+/-! ## property theorems -/
 
 /-- the decoder's consistency assertions hold on every feasible vector -/
 theorem arc_decode_asserts (I : ArcInst) (hw : WF I) (x : Vec) (hx : IsBin I.data.n x)
